@@ -364,3 +364,16 @@ Example C04_connglue_example :
   g_lims (snd (cgrun (cg_init true) (ConnGlueProofs.mkGh [] 0) cg_ex)) = [150; 151; 152].
 Proof. exact connglue_example. Qed.
 Print Assumptions C04_connglue_example.
+
+(** one stream's share of a drain: if it still has data while the connection has credit left, it
+    stopped EXACTLY at its window; a STREAM_DATA_BLOCKED carries exactly that window (= the offset
+    reached) and is remembered, so the same value is not reported by the next drain. *)
+Theorem C04_connglue_blocked_at_limit : forall s conn l s1 c1 e blk,
+  drain_stream s conn = (s1, c1, e, blk) -> SOK s l -> bytesSent conn <= sendWindow conn ->
+  (0 < cs_pending s1 -> 0 < b_sendWindowSize c1 -> bytesSent (cs_fc s1) = sendWindow (cs_fc s1)) /\
+  (blk <> -1 -> blk = sendWindow (cs_fc s1) /\ bytesSent (cs_fc s1) = blk /\
+                lastBlockedAt (cs_fc s) <> blk /\ lastBlockedAt (cs_fc s1) = blk) /\
+  (blk = -1 -> lastBlockedAt (cs_fc s1) = lastBlockedAt (cs_fc s)) /\
+  sendWindow (cs_fc s1) = sendWindow (cs_fc s).
+Proof. exact drain_stream_exact. Qed.
+Print Assumptions C04_connglue_blocked_at_limit.
